@@ -87,6 +87,7 @@ def ex_arn(acct, mname, ename):
 class Gen:
     def __init__(self, rng, p_bad=0.10):
         self.rng, self.p_bad = rng, p_bad
+        self.live, self.execs = [], []
 
     def bad(self):
         return self.rng.random() < self.p_bad
@@ -107,10 +108,15 @@ class Gen:
         return "ok"
 
     def sm(self):
+        """mostly a machine that exists right now (the runner tells the generator what exists)"""
+        if self.live and self.rng.random() < 0.8:
+            return self.rng.choice(self.live)
         return sm_arn(self.acct(), self.rng.choice(NAMES))
 
     def exarn(self, nstarts):
         r = self.rng
+        if self.execs and r.random() < 0.75:
+            return r.choice(self.execs)
         names = EXEC_NAMES + ["uuid-%d" % i for i in range(nstarts)]
         return ex_arn(self.acct(), r.choice(NAMES), r.choice(names))
 
@@ -132,7 +138,17 @@ class Gen:
         x = r.random()
         body, tags = {}, []
         early = i < max(2, n // 4)
-        if x < (0.55 if early else 0.20):
+        # aim the history at states where the interesting actions can succeed
+        if not self.live and r.random() < 0.75:
+            x = 0.0
+        elif npending and r.random() < 0.25:
+            x = 0.70
+        elif self.execs and r.random() < 0.30:
+            x = r.choice([0.45, 0.85, 0.95, 0.95])
+        elif not self.execs and 0.42 <= x < 0.49 or x >= 0.91 and not self.execs:
+            if r.random() < 0.7:
+                x = 0.60
+        if x < (0.55 if early else 0.14):
             a = "CreateStateMachine"
             tags.append("name=" + self.put(body, "name", lambda: r.choice(NAMES), BAD_NAMES, 0.03))
             tags.append("role=" + self.put(body, "roleArn", self.role, BAD_ROLES, 0.03))
@@ -143,7 +159,7 @@ class Gen:
             if r.random() < 0.45:
                 tags.append("log=" + self.put(body, "loggingConfiguration",
                                               lambda: copy.deepcopy(r.choice(LOGCFG_OK)), LOGCFG_BAD, 0))
-        elif x < 0.36:
+        elif x < 0.30:
             a = "UpdateStateMachine"
             tags.append("arn=" + self.put(body, "stateMachineArn", self.sm, BAD_SM_ARNS))
             which = r.random()
@@ -154,31 +170,31 @@ class Gen:
             if r.random() < 0.5:
                 tags.append("log=" + self.put(body, "loggingConfiguration",
                                               lambda: copy.deepcopy(r.choice(LOGCFG_OK)), LOGCFG_BAD, 0))
-        elif x < 0.43:
+        elif x < 0.35:
             a = "DeleteStateMachine"
             tags.append("arn=" + self.put(body, "stateMachineArn", self.sm, BAD_SM_ARNS))
-        elif x < 0.51:
+        elif x < 0.42:
             a = "DescribeStateMachine"
             tags.append("arn=" + self.put(body, "stateMachineArn", self.sm, BAD_SM_ARNS))
-        elif x < 0.57:
+        elif x < 0.49:
             a = "DescribeStateMachineForExecution"
             tags.append("arn=" + self.put(body, "executionArn", lambda: self.exarn(nstarts), BAD_EXEC_ARNS))
-        elif x < 0.62:
+        elif x < 0.53:
             a = "ListStateMachines"
             if r.random() < 0.3:
                 body["maxResults"] = 20
-        elif x < 0.76:
+        elif x < 0.67:
             a = "StartExecution"
             tags.append("arn=" + self.put(body, "stateMachineArn", self.sm, BAD_SM_ARNS))
             if r.random() < 0.8:
                 tags.append("name=" + self.put(body, "name", lambda: r.choice(EXEC_NAMES), BAD_NAMES, 0))
             if r.random() < 0.8:
                 tags.append("input=" + self.put(body, "input", lambda: r.choice(INPUT_OK), INPUT_BAD, 0))
-        elif x < 0.84:
+        elif x < 0.80:
             if npending:
                 return {"op": "deliver", "k": r.randrange(npending)}, ["deliver"]
             a = "ListStateMachines"
-        elif x < 0.93:
+        elif x < 0.91:
             a = "ListExecutions"
             tags.append("arn=" + self.put(body, "stateMachineArn", self.sm, BAD_SM_ARNS))
             if r.random() < 0.6:
@@ -200,14 +216,17 @@ class Gen:
             body["extra"] = r.choice([1, "x", None, [1], {"a": 1}])
         return {"op": "call", "action": a, "body": body}, [a] + tags
 
-    def sequence(self, n):
-        ops, tags, nstarts, npending = [], [], 0, 0
+    def sequence(self, n, runner):
+        """generate a history while running it on one world, so that ARNs can be aimed at what exists;
+        the operations that come out are concrete and are re-run unchanged on the other worlds"""
+        ops, tags, nstarts = [], [], 0
         for i in range(n):
-            o, t = self.op(i, n, nstarts, npending)
+            snap = runner.world.snapshot()
+            self.live, self.execs = sorted(snap["machines"]), sorted(snap["executions"])
+            o, t = self.op(i, n, nstarts, len(runner.world.pending))
+            runner.step(i, o)
             ops.append(o)
             tags.append(t)
-            if o["op"] == "call" and o["action"] == "StartExecution":
-                npending += 1        # an upper bound; the runner takes k modulo the real number
             if o["op"] == "call":
                 nstarts += 1
         return ops, tags
@@ -444,12 +463,17 @@ def has_float(x):
     return False
 
 
-def run_history(world, ops, trace_all=False):
-    """run one history on the real system; returns the per-step records (with model lines)"""
-    world.activate()
-    world.reset()
-    steps = []
-    for i, op in enumerate(ops):
+class Runner:
+    """runs a history on the real system, one operation at a time"""
+
+    def __init__(self, world):
+        self.world = world
+        world.activate()
+        world.reset()
+        self.steps = []
+
+    def step(self, i, op):
+        world = self.world
         world.clock.now += 7
         before = world.snapshot()
         if op["op"] == "deliver":
@@ -461,9 +485,9 @@ def run_history(world, ops, trace_all=False):
                 if before["executions"].get(k) != v:
                     lines.append(("api\tengine\t%s\t%s\t%s" % (pj(cur), pj(k), pj(v)), k))
                     cur = {"machines": cur["machines"], "executions": dict(cur["executions"], **{k: v})}
-            steps.append({"i": i, "op": op, "kind": "deliver", "before": before, "after": after,
-                          "lines": lines, "exc": exc})
-            continue
+            self.steps.append({"i": i, "op": op, "kind": "deliver", "before": before, "after": after,
+                               "lines": lines, "exc": exc})
+            return
         world.uuid.next = "uuid-%d" % i
         npub = len(world.disp.published)
         data = body_bytes(op)
@@ -487,8 +511,15 @@ def run_history(world, ops, trace_all=False):
                 st["line"] = None
             else:
                 st["line"] = "api\tstep\t%s\t%s\t%s\t%s" % (pj(world.model_cfg), pj(env), pj(before), pj(call))
-        steps.append(st)
-    return steps
+        self.steps.append(st)
+
+
+def run_history(world, ops):
+    """run one history on the real system; returns the per-step records (with model lines)"""
+    r = Runner(world)
+    for i, op in enumerate(ops):
+        r.step(i, op)
+    return r.steps
 
 
 # --------------------------------------------------------------------------- comparison
@@ -552,9 +583,10 @@ def check_deliver(st, answers):
     return out
 
 
-def evaluate(chk, world, ops, tags=None, stream="random", report=True):
-    """run + compare one history; returns the list of (step index, disagreement)"""
-    steps = run_history(world, ops)
+def evaluate(chk, world, ops, steps=None):
+    """run one history (unless already run) and collect the model lines"""
+    if steps is None:
+        steps = run_history(world, ops)
     lines, owners = [], []
     for st in steps:
         if st["kind"] == "call" and st.get("line"):
@@ -650,30 +682,33 @@ def run(chk):
         for c in common.load_corpus("C10"):
             for w in worlds:
                 if c.get("frontend") in (None, w.frontend) and bool(c.get("validate_asl", False)) == bool(w.validate_asl):
-                    batches.append((w, c["ops"], None, "corpus"))
+                    batches.append((w, c["ops"], None, "corpus", None))
         chk.cov["streams"]["corpus"] = len(batches)
         for h in boundary_histories():
             for w in worlds[:2]:
-                batches.append((w, h, None, "boundary"))
-        nseq = 700 if quick else 30000
+                batches.append((w, h, None, "boundary", None))
+        nseq = 1500 if quick else 30000
         maxlen = 12 if quick else 40
         g = Gen(chk.rng)
         nrand = 0
         for s in range(nseq):
-            n = chk.rng.randint(3, maxlen)
+            n = chk.rng.randint(4, maxlen)
             g.p_bad = chk.rng.choice([0.03, 0.10, 0.10, 0.25])
-            ops, tags = g.sequence(n)
             ws = [worlds[0], worlds[1]] if s % 4 else [worlds[2], worlds[1]]
-            for w in ws:
-                batches.append((w, ops, tags, "random"))
-                nrand += 1
+            if s % 3 == 2:
+                ws.reverse()
+            first = Runner(ws[0])
+            ops, tags = g.sequence(n, first)
+            batches.append((ws[0], ops, tags, "random", first.steps))
+            batches.append((ws[1], ops, tags, "random", None))
+            nrand += 2
         chk.cov["streams"]["random_histories"] = nrand
         chk.cov["streams"]["boundary"] = 2 * len(boundary_histories())
 
         # run everything on the real system, collect the model lines, ask the model once
         runs, all_lines = [], []
-        for w, ops, tags, stream in batches:
-            steps, lines, owners = evaluate(chk, w, ops)
+        for w, ops, tags, stream, pre in batches:
+            steps, lines, owners = evaluate(chk, w, ops, pre)
             runs.append((w, ops, tags, stream, steps, len(all_lines), len(lines)))
             all_lines += lines
         answers = common.driver(all_lines, shards=8)
